@@ -102,6 +102,8 @@ func (g Generator) Generate(openapi3Spec *openapi3.Swagger, outDir string, packa
 		}
 		basePath = u.Path
 	}
+	// a trailing slash on the base path is insignificant: routes are matched as <base>/<segments>
+	basePath = strings.TrimRight(basePath, "/")
 
 	gen, err := generator.NewGenerator(s,
 		cfg,
